@@ -177,7 +177,16 @@ def render_stmts(prog, ss, ind, out, sigs, cnt):
             sig = "".join(arg_sig(prog, a) for a in s[1]); sigs.add(sig)
             xs = []
             for a in s[1]:
-                if a[0] == "bor": xs.append(("&'" if a[1] else "&") + r_place(a[2]))
+                if a[0] == "bor":
+                    bx = ("&'" if a[1] else "&") + r_place(a[2])
+                    # a third of the borrowed arguments pass through a call that hands its reference argument back: the loan
+                    # lasts as long as the outer call all the same (seed C07f: loans of a nested call released when it returns)
+                    import zlib
+                    if zlib.crc32(repr((prog.body, s, a)).encode()) % 3 == 0:
+                        pt = place_type(a[2]); pn = "pass%s_%s" % ("M" if a[1] else "S", pt)
+                        sigs.add("PASS:%s:%s" % ("M" if a[1] else "S", pt))
+                        bx = "%s(%s)" % (pn, bx)
+                    xs.append(bx)
                 elif a[0] == "rd": xs.append(r_place(a[1]))
                 else: xs.append(rname(a[1]))
             out.append("%sh_%s(%s);" % (pad, sig, ", ".join(xs)))
@@ -224,7 +233,14 @@ def render_main(progs_named):
 
 def render_file(progs_named):
     sigs = set(); fns = [render_fn(p, n, sigs) for n, p in progs_named]
-    return HEADER + COND_HELPERS + "".join(helper_src(s) for s in sorted(sigs)) + "".join(fns) + render_main(progs_named)
+    passes = sorted(x for x in sigs if x.startswith("PASS:"))
+    psrc = ""
+    for x in passes:
+        _, m, pt = x.split(":")
+        rt = ref_tyname(pt, m == "M")
+        psrc += "fn pass%s_%s(r: %s) -> %s {\n  return r;\n}\n" % (m, pt, rt, rt)
+    return (HEADER + COND_HELPERS + psrc + "".join(helper_src(s) for s in sorted(sigs) if not s.startswith("PASS:")) + "".join(fns)
+            + render_main(progs_named))
 
 # ------------------------------------------------------------------ reference interpreter (write-through visibility)
 class Ret(Exception):
